@@ -97,6 +97,22 @@ func init() {
 				}
 			}
 		}
+		// the model's n is Do's argument: it must not be changed on the way (e.g. capped after w.running = n)
+		ast.Inspect(do.Body, func(nd ast.Node) bool {
+			switch x := nd.(type) {
+			case *ast.AssignStmt:
+				for _, l := range x.Lhs {
+					if id, ok := l.(*ast.Ident); ok && id.Name == nName && x.Tok != token.DEFINE {
+						g.fail("par: Work.Do assigns to its parameter %s (the number of runners started must be the %s that %s.running is set to)", nName, nName, recv)
+					}
+				}
+			case *ast.IncDecStmt:
+				if id, ok := x.X.(*ast.Ident); ok && id.Name == nName {
+					g.fail("par: Work.Do changes its parameter %s", nName)
+				}
+			}
+			return true
+		})
 		if minN == "" {
 			g.fail("par: Work.Do no longer starts with `if %s < LIT { panic(...) }`", nName)
 		}
